@@ -879,6 +879,9 @@ func (g *Gen) dispatchRefine(ce *callee, pre, post *State, results []string, pos
 					continue // value receivers live in a box: not needed for the module's key and hasher types
 				}
 				g.UsedSpecs[FuncKey(fn)] = true
+				if spec.RecvInv {
+					g.Warnings = append(g.Warnings, "representation invariant of the receiver assumed at interface dispatch to "+FuncKey(fn)+" (established by the type's constructors)")
+				}
 				cond := sEq(app("if.dyn", recv), fmt.Sprint(g.typeID(T)))
 				mk := func(st, old *State) *SpecEnv {
 					env := &SpecEnv{g: g, vars: map[string]SVal{}, st: st, old: old, pkg: fn.Pkg.Pkg, alloc0: pre.Alloc}
@@ -904,7 +907,7 @@ func (g *Gen) dispatchRefine(ce *callee, pre, post *State, results []string, pos
 					if err != nil {
 						specFail("%s: requires of %s: %v", cl.Pos, FuncKey(fn), err)
 					}
-					if samePkg {
+					if samePkg && !spec.RecvInv {
 						g.oblige("requires", shortKey(FuncKey(fn))+"."+labelOr(cl.Label, cl.Src), pos, sImp(cond, s))
 					} else {
 						// representation invariants of another package's type: not the caller's to establish;
